@@ -206,3 +206,8 @@ func shorten(s string, n int) string {
 
 // CounterValue reads a counter of the current case.
 func (c *Ctx) CounterValue(name string) int64 { return c.counters[name] }
+
+// NewDetachedCtx returns a context that only serves generators (counters are discarded).
+func NewDetachedCtx(r *rng.Rng) *Ctx {
+	return &Ctx{R: r, counters: map[string]int64{}, maxes: map[string]float64{}}
+}
